@@ -99,6 +99,57 @@ let () =
          | Datatypes.Coq_inr i -> print_endline ("panic_at " ^ string_of_int (int_of_n i))
          | Datatypes.Coq_inl (a, b) ->
            print_endline (show a ^ " | " ^ (match b with None -> "-" | Some x -> show x)))
+      | ["c13"; stages; shape; pin; pout; errfile; failk; mode] ->
+        (* stages: argv|argv|... ; shape: left | iter | cat:<k> ; pin: N|P|F<id>|D<units> ; pout: N|P|F<id> ;
+           errfile: 0|1 ; failk: -1|k ; mode: popen | comm *)
+        let open Builder in
+        let open Pipeline in
+        let tail s k = String.sub s k (String.length s - k) in
+        let redir r = match r with
+          | "N" -> BNone | "P" -> BPipe | "M" -> BMerge
+          | _ -> BFile (n_of_int (int_of_string (tail r 1))) in
+        let execs = Stdlib.List.map (fun a -> match dec_argv a with
+            | c :: args -> (match apply_op [] (cmd c) (OArgs args) with Some e -> e | None -> failwith "args")
+            | [] -> failwith "stage") (String.split_on_char '|' stages) in
+        let rec left = function
+          | a :: b :: rest -> Stdlib.List.fold_left (fun p e -> PPush (p, e)) (PNew (a, b)) rest
+          | _ -> failwith "left" in
+        let rec take k l = if k = 0 then [] else (match l with x :: r -> x :: take (k - 1) r | [] -> []) in
+        let rec drop k l = if k = 0 then l else (match l with _ :: r -> drop (k - 1) r | [] -> []) in
+        let x0 = match String.split_on_char ':' shape with
+          | ["left"] -> left execs
+          | ["iter"] -> PIter execs
+          | ["cat"; k] -> let k = int_of_string k in PCat (left (take k execs), left (drop k execs))
+          | _ -> failwith "shape" in
+        let x1 = if pin = "N" then x0 else if pin.[0] = 'D' then PStdin (x0, IData (dec_units (tail pin 1))) else PStdin (x0, IRedir (redir pin)) in
+        let x2 = if pout = "N" then x1 else PStdout (x1, redir pout) in
+        let x3 = if errfile = "1" then PStderrTo (x2, n_of_int 800) else x2 in
+        let show_r = function BNone -> "N" | BPipe -> "P" | BMerge -> "M" | BFile i -> "F" ^ string_of_int (int_of_n i) in
+        (match build x3 with
+         | None -> print_endline "build-panic"
+         | Some p ->
+           let k = int_of_string failk in
+           let fails i = (int_of_nat i = k) in
+           let (ls, o), data = if mode = "comm" then setup_comm fails p else (ppopen fails p, None) in
+           let oc = match o with OOk -> "ok" | OErr k -> "err:" ^ string_of_int (int_of_nat k) | OPanic -> "panic" in
+           let stages = Stdlib.List.map (fun l -> Printf.sprintf "in=%s out=%s err=%s det=%s argv=%s"
+               (show_r l.l_in) (show_r l.l_out) (show_r l.l_err) (b2s l.l_detached) (enc_argv l.l_argv)) ls in
+           print_endline (String.concat " | " ((Printf.sprintf "outcome=%s n=%d data=%s" oc (Stdlib.List.length ls)
+             (match data with None -> "none" | Some d -> enc_units d)) :: stages)))
+      | ["c12"; kind; det; held] ->
+        (* held: per stage the streams whose parent end is held, e.g. "0.1,-,1" *)
+        let open DropOrder in
+        let d = (det = "1") in
+        let heldl = Stdlib.List.map (fun w -> if w = "-" then [] else Stdlib.List.map (fun x -> nat_of_int (int_of_string x)) (String.split_on_char '.' w))
+            (String.split_on_char ',' held) in
+        let h0 = match heldl with x :: _ -> x | [] -> [] in
+        let h = match kind with
+          | "popen" -> HPopen (d, h0) | "readout" -> HReadOut (d, h0) | "readerr" -> HReadErr (d, h0) | "write" -> HWrite (d, h0)
+          | "join" -> HJoin h0 | "vec" -> HVec (d, heldl) | "readpipe" -> HReadPipe (d, heldl) | "writepipe" -> HWritePipe (d, heldl)
+          | "joinpipe" -> HJoinPipe (d, heldl) | "failed" -> HFailed (d, heldl) | _ -> failwith "kind" in
+        let ws = held_at_waits (all_held heldl) (acts h) in
+        print_endline ("waits " ^ String.concat ";" (Stdlib.List.map (fun (i, op) ->
+            string_of_int (int_of_nat i) ^ ":" ^ String.concat "," (Stdlib.List.map (fun (a, b) -> string_of_int (int_of_nat a) ^ "." ^ string_of_int (int_of_nat b)) op)) ws))
       | _ -> print_endline "?"
     done
   with End_of_file -> ()
